@@ -23,7 +23,8 @@ REQUIRED = ['keeps_direct_seats', 'house_grows_by_adj', 'house_grows_by_adj_of_f
             'level_terminates', 'level_terminates_of_no_tie', 'ha_tier_has_votes', 'd_hondt_unbounded',
             'sainte_lague_unbounded', 'level_final_is_proportional', 'level_cty_is_least',
             'level_cty_direct_seat_ignored_witness', 'lrHareEval_fills', 'house_grows_by_adj_lr',
-            'level_least_enlargement_ha', 'level_least_enlargement_lr']
+            'level_least_enlargement_ha', 'level_least_enlargement_lr', 'multistage_final_is_proportional',
+            'level_terminates_lr']
 REQUIRED_COUNTERS = ['overhang_present', 'no_overhang', 'party_outside_tier', 'party_without_votes',
                      'levelling_iterations_ge2', 'by_constituency', 'multistage_wrapped',
                      'allow', 'level', 'd_hondt', 'sainte_lague', 'hare_lr', 'tie_in_baseline', 'multistage_depth2']
@@ -38,8 +39,8 @@ NOT_VERIFIED = [
     'HighestAverages is the C01 model (unordered pool instead of the sorted list with bisect re-insertion); Tie keys are '
     'compared after sorting their members (frozenset equality)',
     "LargestRemainder('hare') is a minimal hand model (Hare quota, accept_equal, on_overaward='error', no max_seats; the "
-    'cap-overshoot branch is unreachable for the Hare quota and answers Unmodelled); termination and final = proportional '
-    'are discharged for HighestAverages only',
+    'cap-overshoot branch is unreachable for the Hare quota and answers Unmodelled); final = proportional is discharged '
+    'for HighestAverages only',
     'the unfuelled while-loops are modelled with fuel = 200 evaluator calls; the same bound is imposed on the real code '
     'by a transparent counting proxy around the evaluator (FuelExhausted on both sides)',
     'max_seats is passed through by the flat models but always {} in the generated cases; the by-constituency models '
@@ -54,8 +55,8 @@ NOT_VERIFIED = [
 UNPROVED = [
     'level_cty_final_is_proportional (ByParty party totals = overall proportional distribution of the enlarged house): '
     'executed model + correspondence + oracle only',
-    'level_terminates / level_final_is_proportional with LargestRemainder as the evaluator: correspondence + oracle only '
-    '(house size and the literal least-enlargement statement ARE proved for the largest-remainder model)',
+    'level_final_is_proportional with LargestRemainder as the evaluator: correspondence + oracle only (house size, '
+    'termination and the literal least-enlargement statement ARE proved for the largest-remainder model)',
     'level_terminates when the baseline result contains a Tie key (the tie need not recur)',
 ]
 EXHAUSTIVE = {'thorough': False}
